@@ -149,12 +149,13 @@ Qed.
 
 (* a datagram case accepted by lb_ok: every message the peer handed up has the length and digest
    of the written message the harness matched it with byte for byte, no written message was
-   handed up twice, and the reader did not count more datagram bytes than the writer sent *)
+   handed up twice (so none of the injected malformed datagrams was handed up), and the reader did
+   not count more datagram bytes than were sent *)
 Lemma lb_ok_dgram_sound c P : lb_k c = LbDgram P -> lb_ok c = true ->
   (forall r, In r (lb_reads c) ->
      exists w i, rd_att r = Some (w, i) /\ desc_at (lb_writers c) w i = Some (rd_len r, rd_dig r))
   /\ NoDup (read_atts (lb_reads c))
-  /\ lb_rx c <= lb_tx c.
+  /\ lb_rx c <= lb_tx c + lb_injb c.
 Proof.
   intros Hk. unfold lb_ok. rewrite Hk. intros H.
   repeat (apply andb_true_iff in H as [H ?]).
